@@ -5,6 +5,18 @@ V = os.path.dirname(os.path.dirname(os.path.abspath(__file__)))
 props = [json.loads(l) for l in open(os.path.join(V, "properties.jsonl"))]
 
 CLAIMED = {
+ "C01": ("world", "Coq refinement proof: executable model of Entities/Archetype/World refines the map Entity -> component set "
+                  "(abs) operation by operation (invariant WInv preserved, result as the map dictates, frame for every "
+                  "other handle), every reachable state satisfies WInv (induction over histories), accessors and "
+                  "iteration are functions of abs; differential check of the model against the real World (observations, "
+                  "row order, allocator snapshots) + shadow-map oracle"),
+ "C09": ("world", "Coq proofs (corollaries of the refinement): errors are reported exactly when the map semantics say so and "
+                  "then abs and the stored values are unchanged; remove is all-or-nothing; differential check with an "
+                  "error-heavy script profile (dead, dangling, forged, foreign, reserved handles; missing components)"),
+ "C10": ("world", "Coq proofs: sort/merge lemmas for TypeInfo order (order independence of the archetype key, two-pointer merge "
+                  "= set operations), memo tables correct in every reachable state (WInv clauses), permuted bundles and "
+                  "different histories give identical denotations (c10_* theorems); twin-script differential check "
+                  "(fields permuted, representation switched) with final-state comparison"),
  "C02": ("world", "Coq proof over all allocator histories (invariant EInv + ghost history of returned handles; "
                   "theorems c02_unique_ids, c02_len, c02_fresh, c02_dead_forever) + differential check of the "
                   "allocator model against the real Entities (meta/pending/cursor snapshots) and issued-handle oracle"),
@@ -32,7 +44,7 @@ ENGINES = [
  {"name": "sched", "path": "coq/Model/Atomic.v, coq/Model/ReserveRun.v, harness/src/sched.rs", "serves_properties": ["C06", "C07"],
   "kind_free_text": "atomic-step interleaving models; cooperative scheduling of the real code through cfg(hecs_verif) yield hooks; real-thread stress"},
  {"name": "world", "path": "coq/Model/{Types,Entities,World,WorldRun}.v, harness/src/world_engine.rs, tools/gens.py",
-  "serves_properties": ["C02", "C08", "C16", "C17"],
+  "serves_properties": ["C01", "C02", "C08", "C09", "C10", "C16", "C17"],
   "kind_free_text": "executable model of Entities/Archetype/World; scripts of world operations over two worlds; shadow-map, issued-handle and drop-ledger oracles"},
  {"name": "world+query", "path": "coq/Model/Query.v, harness/src/query_engine.rs, harness/src/gen_queries.rs",
   "serves_properties": ["C08", "C17"],
